@@ -1,6 +1,7 @@
 import EaselModel.Stats.ExpBinnedReal
 import EaselModel.Stats.HistPlotRat
 import EaselModel.Stats.HistCens
+import EaselModel.Stats.HistMass
 /-! # The exponential tail fit counts exactly the raw data above the threshold (C11, round 6b)
 
 `esl_exp_FitCompleteBinned` on a histogram whose tail was declared with `esl_histogram_SetTail` sums over the bins `cmin..imax` only. Here that
@@ -129,6 +130,52 @@ theorem exp_tail_fit_of_raw_data (h : Hist ℚ) (vs : List ℚ) (acc : Accounts 
       constructor
       · intro _; push_cast at *; linarith
       · intro _; push_cast; linarith
+  have hdsR : h'.toR.datasetIs = .virtualCensored := hds
+  simp only [hdsR] at hmax
+  rw [hN] at hmax
+  exact hmax
+
+/-- what `esl_histogram_SetTailByMass` leaves alone, and the data-set kind it declares -/
+theorem setTailByMass_frame (h : Hist ℚ) (p : ℚ) (h' : Hist ℚ) (m : ℚ) (e : h.setTailByMass p = .val (.ok, h', m)) :
+    h'.imax = h.imax ∧ h'.obs = h.obs ∧ h'.w = h.w ∧ h'.bmin = h.bmin ∧ h'.datasetIs = .virtualCensored := by
+  unfold Hist.setTailByMass at e
+  simp only [] at e
+  split at e
+  · cases e
+  · injection e with e
+    injection e with _ e2
+    injection e2 with e2 _
+    rw [← e2]
+    exact ⟨rfl, rfl, rfl, rfl, rfl⟩
+
+/-- **The same for a tail declared by mass** (`esl_histogram_SetTailByMass(pmass)`, `0 < pmass ≤ 1`, non-empty data): the threshold is the lower
+    bound `φ'` of a bin `imin ≤ b ≤ imax`; `esl_exp_FitCompleteBinned` then answers eslOK with location `φ'` and
+    `λ = (1/w)(log(S + N·w) - log S)`, `N = No` = the number of accepted values `> φ'` (at least `pmass·n` of them), `S = Σ_{j ≥ b} obs[j]·(LBound(j) - φ')`,
+    and that `λ` maximises the binned exponential log-likelihood of those values. -/
+theorem exp_tail_fit_by_mass_of_raw_data (h : Hist ℚ) (vs : List ℚ) (acc : Accounts h vs) (hne : vs ≠ []) (p : ℚ) (hp0 : 0 < p) (hp1 : p ≤ 1) :
+    ∃ h' mass, h.setTailByMass p = .val (.ok, h', mass) ∧ h'.no = vs.countP (fun x => decide (h'.phi < x)) ∧ p * vs.length ≤ h'.no ∧
+      (let hR := h'.toR
+       let k := (hR.imax - hR.cmin + 1).toNat
+       let S := wsum hR.obs (fun j => hR.lbound j - hR.phi) k hR.cmin
+       let N : ℝ := ((h'.no : Nat) : ℝ)
+       expFitCompleteBinned hR = .res .ok #[((h'.phi : ℚ) : ℝ), 1 / hR.w * (Real.log (S + N * hR.w) - Real.log S)] ∧
+       (0 < S → 0 < N → ∀ lam' : ℝ, 0 < lam' →
+         llExpBinned S N hR.w lam' ≤ llExpBinned S N hR.w (1 / hR.w * (Real.log (S + N * hR.w) - Real.log S)))) := by
+  obtain ⟨h', mass, b, e, hb1, hb2, hcmin, hphi, hno, _, hmass, _, _, hobs, _⟩ := setTailByMass_spec h vs acc hne p hp0 hp1
+  obtain ⟨fimax, fobs, fw, fbmin, hds⟩ := setTailByMass_frame h p h' mass e
+  refine ⟨h', mass, e, hno, hmass, ?_⟩
+  have hw := acc.wpos
+  have hsz := acc.wf.size
+  rcases idx_state h vs acc with ⟨hv, _, _⟩ | ⟨_, i1, i2, i3⟩
+  · exact absurd hv hne
+  have hc0 : 0 ≤ h'.cmin := by rw [hcmin]; omega
+  have hmax := expFitCompleteBinned_max h'.toR (by show h'.datasetIs ≠ _; rw [hds]; decide) (by show 0 ≤ h'.cmin; exact hc0)
+    (by show h'.cmin ≤ (h'.obs.size : Int); rw [hobs, hcmin]; omega) (by show h'.imax < (h'.obs.size : Int); rw [hobs, fimax]; omega)
+    (by show (0 : ℝ) < ((h'.w : ℚ) : ℝ); rw [fw]; exact_mod_cast hw)
+  simp only [] at hmax ⊢
+  have hN : wsum h'.toR.obs (fun _ => 1) (h'.toR.imax - h'.toR.cmin + 1).toNat h'.toR.cmin = ((h'.no : Nat) : ℝ) := by
+    show wsum h'.obs (fun _ => 1) (h'.imax - h'.cmin + 1).toNat h'.cmin = _
+    rw [hobs, fimax, exp_tail_N_counts_raw h vs acc h'.cmin hc0 (by rw [hcmin]; omega), hno, hphi, hcmin]
   have hdsR : h'.toR.datasetIs = .virtualCensored := hds
   simp only [hdsR] at hmax
   rw [hN] at hmax
